@@ -235,7 +235,8 @@ def check_property(a):
         'by_backend': by_backend,
         'solver_s': solver_s,
         'units': [{'unit': r['unit'], 'paths': r.get('paths'), 'obligations': len([o for o in r['obligations'] if o['kind'] != 'cover']),
-                   'symex_s': r.get('symex_s'), 'wall_s': r.get('wall_s'), 'arith': r.get('arith'), 'error': r['error']} for r in results],
+                   'symex_s': r.get('symex_s'), 'wall_s': r.get('wall_s'), 'arith': r.get('arith'), 'error': r['error'],
+                   'reused_from_cache_of_this_tree': bool(r.get('cached'))} for r in results],
         'functions_under_contract': functions,
         'inlined_callees': sorted(inlined),
         'callees_by_contract': sorted(bycontract),
